@@ -64,6 +64,12 @@ class Check(PropertyCheck):
         if rng.random() < 0.05:
             jobs, family = gen.make_huge(rng, jobs), family + "+huge"
         f = gen.gen_filter(rng)
+        if rng.random() < 0.12:
+            # time is not monotone here: zero-duration operations in the middle of jobs under the dominated-operations filter
+            # (while such an operation waits alone the clock shows its start; once it is dispatched the clock falls back)
+            jobs = [[(ms, 0 if (p > 0 and rng.random() < 0.5) else d) for p, (ms, d) in enumerate(job)] for job in jobs]
+            family += "+zero_mid"
+            f = rng.choice([["dom"], ["dom"], ["dom", "nidle"], ["nim", "dom"]])
         lines = ["new", instance_line(jobs), gen.filter_line(f)]
         lines += observers_lines(rng, jobs)
         tr = gen.Tracker(jobs)
